@@ -72,6 +72,7 @@ JANET_CORE_FN(cfun_tuple_slice,
               "from the end of the input. Note that if `start` is negative it is "
               "exclusive, and if `end` is negative it is inclusive, to allow a full "
               "negative slice range. Returns the new tuple.") {
+    janet_arity(argc, 1, 3);
     JanetView view = janet_getindexed(argv, 0);
     JanetRange range = janet_getslice(argc, argv);
     return janet_wrap_tuple(janet_tuple_n(view.items + range.start, range.end - range.start));
